@@ -23,3 +23,6 @@ package prelude
 //@   ensures result == arg0 / 1000
 //@ func (time.Duration).Truncate
 //@   ensures result == ite(arg1 <= 0, arg0, arg0 - arg0 % arg1)
+//@ func (time.Time).AddDate
+//@   uses files
+//@   ensures result == time_add_date(arg0, arg1, arg2, arg3)
